@@ -125,16 +125,16 @@ _signed = st.one_of(_vals, _vals.map(lambda x: -x))
 
 @st.composite
 def s_step(draw):
-    op = draw(st.sampled_from(['new', 'new', 'add', 'sub', 'mul', 'div', 'abs', 'neg', 'to', 'to']))
+    op = draw(st.sampled_from(['new', 'new', 'new', 'add', 'sub', 'mul', 'div', 'abs', 'neg', 'to', 'to', 'to']))
     if op == 'new':
-        kind = draw(st.sampled_from(U.KINDS + ['Length', 'Surface', 'InertiaMoment', 'TimeInterval', 'Angle']))
+        kind = draw(st.sampled_from(U.KINDS + 3 * ['Length', 'Surface', 'InertiaMoment', 'TimeInterval', 'Angle']))
         return {'op': 'new', 'kind': kind, 'unit': draw(st.sampled_from(list(U.UNITS[kind]))),
                 'value': draw(_signed)}
     if op in ('abs', 'neg'):
         return {'op': op, 'a': draw(st.integers(0, 30))}
     if op == 'to':
         return {'op': 'to', 'a': draw(st.integers(0, 30)), 'unit_ix': draw(st.integers(0, 16)),
-                'inplace': draw(st.booleans())}
+                'inplace': draw(st.integers(0, 3)) > 0}
     step = {'op': op, 'a': draw(st.integers(0, 30))}
     if draw(st.booleans()):
         step['num'] = draw(_signed)
@@ -144,7 +144,7 @@ def s_step(draw):
     return step
 
 
-s_program = st.builds(lambda steps: {'steps': steps}, st.lists(s_step(), min_size=1, max_size=25))
+s_program = st.builds(lambda steps: {'steps': steps}, st.lists(s_step(), min_size=3, max_size=25))
 
 
 # ---------------------------------------------------------------------------------------
